@@ -71,14 +71,14 @@ theorem pendingBlocks_exists {s : Store} {w : Nat} (h : ∀ k, w < k → k ≤ s
 /-! ### what an iteration reduces to -/
 
 def hdrItems (bs : List Block) : List Item :=
-  bs.map fun b => ({ height := b.sh.hdr.height, key := b.sh.hdr.hash } : Item)
+  bs.map fun b => ({ height := b.sh.hdr.height, key := b.sh.hdr.hash, blob := hdrBlob b } : Item)
 
 /-- the height a signed-data blob carries -/
 def dataHeight (b : Block) : Nat := (b.data.metadata.map (·.height)).getD 0
 
 def dataItems (bs : List Block) : List Item :=
   (bs.filter fun b => !b.data.txs.isEmpty).map fun b =>
-    ({ height := dataHeight b, key := b.data.daCommitment } : Item)
+    ({ height := dataHeight b, key := b.data.daCommitment, blob := dataBlob b } : Item)
 
 /-- the retry loop with the attempt bound of the two submission loops -/
 def iterOf (d : Bool) (a : ANode) (items : List Item) (script : List DAAns) : ANode × List SW × List SubmitCall × IterOut :=
@@ -135,7 +135,7 @@ theorem dataIter_cases (a : ANode) (script : List DAAns) :
 /-- the items of a header iteration are the headers of stored blocks of the pending range -/
 theorem hdrItems_mem {s : Store} {w : Nat} {bs : List Block} (h : pendingBlocks s w = some bs) :
     ∀ it ∈ hdrItems bs, ∃ k b, w < k ∧ k ≤ s.height ∧ s.getBlock k = some b ∧
-      it = { height := b.sh.hdr.height, key := b.sh.hdr.hash } := by
+      it = { height := b.sh.hdr.height, key := b.sh.hdr.hash, blob := hdrBlob b } := by
   obtain ⟨hl, hget⟩ := pendingBlocks_some h
   intro it hit
   simp only [hdrItems, List.mem_map] at hit
@@ -145,7 +145,7 @@ theorem hdrItems_mem {s : Store} {w : Nat} {bs : List Block} (h : pendingBlocks 
 
 theorem dataItems_mem {s : Store} {w : Nat} {bs : List Block} (h : pendingBlocks s w = some bs) :
     ∀ it ∈ dataItems bs, ∃ k b, w < k ∧ k ≤ s.height ∧ s.getBlock k = some b ∧ b.data.txs ≠ [] ∧
-      it = { height := dataHeight b, key := b.data.daCommitment } := by
+      it = { height := dataHeight b, key := b.data.daCommitment, blob := dataBlob b } := by
   obtain ⟨hl, hget⟩ := pendingBlocks_some h
   intro it hit
   simp only [dataItems, List.mem_map, List.mem_filter] at hit
@@ -203,7 +203,7 @@ theorem sorted_of_heights {items : List Item} {s n : Nat} (h : items.map (·.hei
 theorem headersIter_inv (a : ANode) (script : List DAAns) :
     ∃ items rem pre, LoopInv false a items (headersIter a script).1 rem (headersIter a script).2.1 pre ∧
       (∀ it ∈ items, ∃ k b, a.n.hdrWm < k ∧ k ≤ a.n.store.height ∧ a.n.store.getBlock k = some b ∧
-        it = { height := b.sh.hdr.height, key := b.sh.hdr.hash }) := by
+        it = { height := b.sh.hdr.height, key := b.sh.hdr.hash, blob := hdrBlob b }) := by
   rcases headersIter_cases a script with ⟨h, _⟩ | ⟨h, _⟩ | ⟨bs, _, hbs, h⟩
   · rw [h]; exact ⟨[], [], [], LoopInv.init false a [], by simp⟩
   · rw [h]; exact ⟨[], [], [], LoopInv.init false a [], by simp⟩
@@ -266,7 +266,7 @@ theorem raiseWm_iter (a : ANode) (d : Bool) (h : Nat) (items : List Item) :
 theorem headersIter_iter (a : ANode) (script : List DAAns) :
     ∃ items, IterInv false a items (headersIter a script).1 (headersIter a script).2.1 ∧
       (∀ it ∈ items, ∃ k b, a.n.hdrWm < k ∧ k ≤ a.n.store.height ∧ a.n.store.getBlock k = some b ∧
-        it = { height := b.sh.hdr.height, key := b.sh.hdr.hash }) := by
+        it = { height := b.sh.hdr.height, key := b.sh.hdr.hash, blob := hdrBlob b }) := by
   obtain ⟨items, rem, pre, hi, hmem⟩ := headersIter_inv a script
   exact ⟨items, hi.toIter, hmem⟩
 
@@ -274,7 +274,7 @@ theorem headersIter_iter (a : ANode) (script : List DAAns) :
 theorem dataIter_iter (a : ANode) (script : List DAAns) :
     ∃ items, IterInv true a items (dataIter a script).1 (dataIter a script).2.1 ∧
       (∀ it ∈ items, ∃ k b, a.n.dataWm < k ∧ k ≤ a.n.store.height ∧ a.n.store.getBlock k = some b ∧ b.data.txs ≠ [] ∧
-        it = { height := dataHeight b, key := b.data.daCommitment }) := by
+        it = { height := dataHeight b, key := b.data.daCommitment, blob := dataBlob b }) := by
   rcases dataIter_cases a script with ⟨h, _⟩ | ⟨h, _⟩ | ⟨bs, _, _, _, h⟩ | ⟨bs, _, hbs, _, h⟩
   · rw [h]; exact ⟨[], (LoopInv.init true a []).toIter, by simp⟩
   · rw [h]; exact ⟨[], (LoopInv.init true a []).toIter, by simp⟩
